@@ -44,6 +44,22 @@ CHECKS = {
                      'the reference; all single-bit flips of one message per exchange type, truncations, extensions and '
                      'wrong keys must raise a protocol error; emitted post-INIT traffic is SK-only.',
                 note='bit-flip sweeps are exhaustive for the representative messages only'),
+    'C14': dict(level='exploration', design='3 C14',
+                technique='Hypothesis-generated Xfrm call sequences; every emitted netlink request decoded by a C program '
+                          'compiled against <linux/xfrm.h> and compared field by field with the intended values; reverse '
+                          'direction: C-encoded ACQUIRE/EXPIRE/ack/error decoded by the daemon (differential oracle)',
+                text='Generated argument tuples for create_sa / create_policy / delete_sa / flush (all prefix lengths, ports, '
+                     'protocols, families incl. mixed selector/endpoint families, algorithms, lifetimes, SPI, index, direction); '
+                     'header, attribute framing and every kernel structure field must say what was meant; kernel events and '
+                     'replies are decoded to the encoded values.',
+                note='kernel-side semantic validation beyond the UAPI layout is not simulated'),
+    'C19': dict(level='exploration', design='3 C19',
+                technique='grammar-based generation of configuration dictionaries with one injected fault; differential oracle = '
+                          'independent reading of the same dictionary; outcome must be ConfigurationError or a faithful load',
+                text='Dictionaries over the documented keys with valid, missing, ill-typed and out-of-range values at connection, '
+                     'auth and protect level (incl. aliased protect lists and repeated loading); loaded connections equal an '
+                     'independent reading, nothing but ConfigurationError is raised, unlistened my_addr is refused.',
+                note='numeric addresses only; for ill-typed values only the exception family is asserted'),
 }
 
 NOT_YET = 'check not built yet in this session (planned, see DESIGN.md section 8)'
